@@ -27,7 +27,7 @@ RUNS = {"quick": len(CELLS) + 60, "thorough": (len(CELLS) + 60) * 6}
 BUDGET = {"quick": 75, "thorough": 1800}
 RULE = ("one run = one history: N encryptions (quick 136-200, thorough up to 10,000 for cheap families, 1,000 for RSA / PBES2) of "
         "one (alg, enc, serialisation) cell with the same key and equal header values, entropy configuration prng-seam | real | "
-        "real across 3-4 fresh interpreter processes (index driven); or a history of key generations (oct 8..512 bit, RSA, EC x4, "
+        "real across 3-4 fresh interpreter processes | real across 3-4 children forked after the parent encrypted once (index driven); or a history of key generations (oct 8..512 bit, RSA, EC x4, "
         "OKP x4); a case = one produced token / key whose IV, CEK (recovered by the reference peer with the recipient key), epk, "
         "GCM-KW iv, p2s, p2c were checked against the whole history; distinct = distinct (run, position)")
 ASSUMPTIONS = [
@@ -255,7 +255,7 @@ def run(rng: Rng, tier: str, index: int) -> RunResult:
         return res
     alg, enc, form = CELLS[slot]
     spec = make_spec(rng.sub("spec"), alg, enc, form)
-    mode = ["prng", "real", "multiprocess"][(index // 7) % 3] if tier == "quick" else ["prng", "real", "real", "multiprocess"][(index // 7) % 4]
+    mode = ["prng", "real", "multiprocess", "fork"][(index // 7) % 4] if tier == "quick" else ["prng", "real", "fork", "real", "multiprocess"][(index // 7) % 5]
     cheap = not (alg.startswith("RSA") or (alg in rjwe.PBES2 and not spec["supply_p2c"]) or alg.startswith("ECDH"))
     if tier == "quick":
         n = rng.randrange(136, 200)
@@ -273,6 +273,9 @@ def run(rng: Rng, tier: str, index: int) -> RunResult:
                 tokens = produce_history(spec, n)
         elif mode == "real":
             tokens = produce_history(spec, n)
+        elif mode == "fork":
+            tokens = fork_history(spec, n, 3 if tier == "quick" else 4)
+            res.fired("forked-processes-after-parent-encrypted")
         else:
             tokens = multiprocess_history(spec, n, 3 if tier == "quick" else 4)
             res.fired("fresh-interpreter-processes")
@@ -311,6 +314,39 @@ def multiprocess_history(spec, n, procs):
     return out
 
 
+def fork_history(spec, n, procs):
+    """the parent encrypts once, then forks workers (the pre-fork server pattern): a generator state or random pool
+    inherited through fork() makes the children hand out the same values"""
+    import pickle
+    out = list(produce_history(spec, 1))
+    per = max(8, n // procs)
+    kids = []
+    for _ in range(procs):
+        r, w = os.pipe()
+        pid = os.fork()
+        if pid == 0:
+            code = 0
+            try:
+                os.close(r)
+                data = pickle.dumps(produce_history(spec, per))
+                with os.fdopen(w, "wb") as f:
+                    f.write(data)
+            except BaseException:
+                code = 3
+            finally:
+                os._exit(code)
+        os.close(w)
+        kids.append((pid, r))
+    for pid, r in kids:
+        with os.fdopen(r, "rb") as f:
+            data = f.read()
+        _, status = os.waitpid(pid, 0)
+        if status != 0 or not data:
+            raise RuntimeError("forked history child failed")
+        out.extend(pickle.loads(data))
+    return out
+
+
 def replay(repro: dict):
     JW.ensure_drafts_registered()
     out = []
@@ -329,6 +365,8 @@ def replay(repro: dict):
             tokens = produce_history(spec, n)
     elif mode == "real":
         tokens = produce_history(spec, n)
+    elif mode == "fork":
+        tokens = fork_history(spec, n, 3)
     else:
         tokens = multiprocess_history(spec, n, 3)
     judge_history(spec, tokens, res, viol, ent)
